@@ -10,7 +10,9 @@ import (
 	"sync"
 
 	"github.com/gardenbed/charm/ui"
+	aparser "github.com/moorara/algo/parser"
 
+	"github.com/gardenbed/emerge/internal/ebnf/parser"
 	"github.com/gardenbed/emerge/internal/ebnf/parser/spec"
 	"github.com/gardenbed/emerge/internal/generate/golang"
 	"github.com/gardenbed/emerge/internal/regex/parser/ast"
@@ -62,6 +64,10 @@ var Ops = []struct {
 	// first and a pattern in the second
 	{"generate-rep-literal", func() string { return generateDigest(specRepLiteral, false) }},
 	{"generate-rep-pattern", func() string { return generateDigest(specRepPattern, false) }},
+	// the generic parse tree, for a specification that is accepted and for two that are rejected after the first tokens
+	{"build-tree-one", func() string { return treeDigest(specOne) }},
+	{"fail-build-tree-syntax", func() string { return treeDigest("grammar g ;\nAA = \"x\" ;\nstart = ( [ AA \"b\" ;\n") }},
+	{"fail-build-tree-lexical", func() string { return treeDigest("grammar g ;\nstart = \"a\" {{ \"b\" # }} ;\n") }},
 	// generations that fail inside the generator (the specification itself is accepted): conflicting definitions, an
 	// unresolved LALR(1) conflict
 	{"generate-fail-definitions", func() string {
@@ -90,6 +96,34 @@ var Ops = []struct {
 }
 
 // Fails reports whether an operation is one of those that fail midway; Cheap whether it may be repeated many times.
+func treeDigest(text string) string {
+	p, err := parser.New("f.g", strings.NewReader(text))
+	if err != nil {
+		return "ERROR " + err.Error()
+	}
+	root, err := p.ParseAndBuildAST()
+	if err != nil {
+		return "ERROR " + err.Error()
+	}
+	var b strings.Builder
+	var walk func(n aparser.Node, depth int)
+	walk = func(n aparser.Node, depth int) {
+		switch v := n.(type) {
+		case *aparser.LeafNode:
+			fmt.Fprintf(&b, "%*s%s %q %s:%d:%d@%d\n", depth, "", v.Terminal, v.Lexeme, v.Position.Filename, v.Position.Line, v.Position.Column, v.Position.Offset)
+		case *aparser.InternalNode:
+			fmt.Fprintf(&b, "%*s%s <- %v\n", depth, "", v.NonTerminal, v.Production)
+			for _, c := range v.Children {
+				walk(c, depth+1)
+			}
+		default:
+			fmt.Fprintf(&b, "%*s%T\n", depth, "", n)
+		}
+	}
+	walk(root, 0)
+	return b.String()
+}
+
 func Fails(i int) bool {
 	return strings.HasPrefix(Ops[i].Name, "fail-") || strings.HasPrefix(Ops[i].Name, "generate-fail-")
 }
